@@ -11,7 +11,7 @@ no dependency line carries `-j`, every name has one declared version, and `max_d
 namespace EupsModel.Setup
 
 def NoJust (db : Db) (S : Name → Prop) : Prop :=
-  ∀ d ∈ db.decls, S d.name → ∀ g n o j v x, (g, Act.dep n o j v x) ∈ d.table → j = false
+  ∀ d ∈ db.decls, S d.name → ∀ g n o j v x t, (g, Act.dep n o j v x t) ∈ d.table → j = false
 
 def OneVersion (db : Db) (S : Name → Prop) : Prop :=
   ∀ d ∈ db.decls, ∀ d' ∈ db.decls, S d.name → d'.name = d.name → d'.ver = d.ver
@@ -40,7 +40,7 @@ theorem rec_none_of_sub {e e' : Env} (hs : Sub e' e) (n : Name) (h : e.rec? n = 
 /-- when a product of `S` loses its record during the run, everything its table names is without a record at the end -/
 def Cleared (cfg : Cfg) (S : Name → Prop) (e e' : Env) : Prop :=
   ∀ p v, S p → e.rec? p = some v → e'.rec? p = none →
-    ∀ m o j x y, Act.dep m o j x y ∈ tableOf cfg (p, v) → e'.rec? m = none
+    ∀ m o j x y t, Act.dep m o j x y t ∈ tableOf cfg (p, v) → e'.rec? m = none
 
 def UnClear (cfg : Cfg) (S : Name → Prop) (rec : Rec) : Prop :=
   ∀ depth vro n ver vexpr s s', S n → WellOwned cfg s.env → RecsDeclared cfg.db s.env →
@@ -48,13 +48,13 @@ def UnClear (cfg : Cfg) (S : Name → Prop) (rec : Rec) : Prop :=
 
 theorem cleared_trans {cfg : Cfg} {S : Name → Prop} {a b c : Env} (h1 : Cleared cfg S a b) (h2 : Cleared cfg S b c)
     (hba : Sub b a) (hcb : Sub c b) : Cleared cfg S a c := by
-  intro p v hp hr hn m o j x y hline
+  intro p v hp hr hn m o j x y t hline
   cases hb : b.rec? p with
-  | none => exact rec_none_of_sub hcb m (h1 p v hp hr hb m o j x y hline)
+  | none => exact rec_none_of_sub hcb m (h1 p v hp hr hb m o j x y t hline)
   | some w =>
     have : w = v := by have := hba.recs p w hb; rw [hr] at this; exact (Option.some.inj this).symm
     subst this
-    exact h2 p w hp hb hn m o j x y hline
+    exact h2 p w hp hb hn m o j x y t hline
 
 theorem acts_false_clear (cfg : Cfg) (S : Name → Prop) (hmd : cfg.maxDepth = none) (rec : Rec) (hun : UnSpec cfg rec)
     (hunf : ∀ depth noRec vro n ver vexpr s s', rec false depth noRec vro n ver vexpr s ≠ .raised s' ∧
@@ -62,9 +62,9 @@ theorem acts_false_clear (cfg : Cfg) (S : Name → Prop) (hmd : cfg.maxDepth = n
     (hunsets : ∀ depth noRec vro n ver vexpr s s', WellOwned cfg s.env →
       rec false depth noRec vro n ver vexpr s = .ok s' → s'.env.rec? n = none)
     (hrec : UnClear cfg S rec) (depth : Nat) (vro : List VroEnt) (d : Decl) (l : List Act)
-    (hl : ∀ n o j v x, Act.dep n o j v x ∈ l → S n ∧ j = false) :
+    (hl : ∀ n o j v x t, Act.dep n o j v x t ∈ l → S n ∧ j = false) :
     ∀ s s', WellOwned cfg s.env → RecsDeclared cfg.db s.env → acts rec cfg false depth false vro d l s = .ok s' →
-      Cleared cfg S s.env s'.env ∧ (∀ n o j v x, Act.dep n o j v x ∈ l → s'.env.rec? n = none) := by
+      Cleared cfg S s.env s'.env ∧ (∀ n o j v x t, Act.dep n o j v x t ∈ l → s'.env.rec? n = none) := by
   induction l with
   | nil =>
     intro s s' _ _ h
@@ -73,12 +73,12 @@ theorem acts_false_clear (cfg : Cfg) (S : Name → Prop) (hmd : cfg.maxDepth = n
     intro p v _ hr hn
     rw [hr] at hn; cases hn
   | cons a rest ih =>
-    have hl' : ∀ n o j v x, Act.dep n o j v x ∈ rest → S n ∧ j = false :=
-      fun n o j v x hm => hl n o j v x (List.mem_cons_of_mem _ hm)
+    have hl' : ∀ n o j v x t, Act.dep n o j v x t ∈ rest → S n ∧ j = false :=
+      fun n o j v x t hm => hl n o j v x t (List.mem_cons_of_mem _ hm)
     intro s s' hw hd h
-    by_cases hdep : ∃ n o j v x, a = .dep n o j v x
-    · obtain ⟨n, o, j, v, x, rfl⟩ := hdep
-      obtain ⟨hSn, hj⟩ := hl n o j v x (by simp)
+    by_cases hdep : ∃ n o j v x t, a = .dep n o j v x t
+    · obtain ⟨n, o, j, v, x, t, rfl⟩ := hdep
+      obtain ⟨hSn, hj⟩ := hl n o j v x t (by simp)
       subst hj
       simp only [acts, hmd, Bool.false_or] at h
       simp only [reduceCtorEq, decide_false, Bool.false_eq_true, if_false] at h
@@ -90,12 +90,12 @@ theorem acts_false_clear (cfg : Cfg) (S : Name → Prop) (hmd : cfg.maxDepth = n
         obtain ⟨hc2, hb2⟩ := ih hl' s1 s' hw1 hd1 h
         obtain ⟨_, hs2, _, _⟩ := acts_false_spec cfg rec hun (fun _ => True) depth false vro d rest s1 s' hw1 (noResidue_true _) h
         refine ⟨cleared_trans (hrec _ _ _ _ _ _ _ hSn hw hd hr1) hc2 hs1 hs2, ?_⟩
-        intro n' o' j' v' x' hm
+        intro n' o' j' v' x' t' hm
         simp only [List.mem_cons] at hm
         rcases hm with hm | hm
         · cases hm
           exact rec_none_of_sub hs2 n (hunsets _ _ _ _ _ _ _ _ hw hr1)
-        · exact hb2 n' o' j' v' x' hm
+        · exact hb2 n' o' j' v' x' t' hm
       · cases h
       · rename_i s1 hr1
         simp only [Bool.false_and, Bool.false_eq_true, if_false] at h
@@ -104,15 +104,15 @@ theorem acts_false_clear (cfg : Cfg) (S : Name → Prop) (hmd : cfg.maxDepth = n
         obtain ⟨_, hs2, _, _⟩ := acts_false_spec cfg rec hun (fun _ => True) depth false vro d rest
           ⟨s.env, s.aliases, s.unaliased, s1.already⟩ s' hw (noResidue_true _) h
         refine ⟨hc2, ?_⟩
-        intro n' o' j' v' x' hm
+        intro n' o' j' v' x' t' hm
         simp only [List.mem_cons] at hm
         rcases hm with hm | hm
         · cases hm
           exact rec_none_of_sub hs2 n hnone
-        · exact hb2 n' o' j' v' x' hm
+        · exact hb2 n' o' j' v' x' t' hm
       · rename_i s1 hr1
         exact absurd hr1 (hunf _ _ _ _ _ _ _ _).1
-    · have hnd : ∀ n o j v x, a ≠ .dep n o j v x := fun n o j v x e => hdep ⟨n, o, j, v, x, e⟩
+    · have hnd : ∀ n o j v x t, a ≠ .dep n o j v x t := fun n o j v x t e => hdep ⟨n, o, j, v, x, t, e⟩
       rw [acts_cons_nondep rec cfg false depth false vro d a rest s hnd] at h
       obtain ⟨hs1, hrec1, _, _⟩ := apply_false_spec d.prod a s
       have hw1 := hw.of_sub hs1
@@ -120,11 +120,11 @@ theorem acts_false_clear (cfg : Cfg) (S : Name → Prop) (hmd : cfg.maxDepth = n
       refine ⟨?_, ?_⟩
       · intro p v hp hr hn
         exact hc2 p v hp (by rw [hrec1]; exact hr) hn
-      · intro n' o' j' v' x' hm
+      · intro n' o' j' v' x' t' hm
         simp only [List.mem_cons] at hm
         rcases hm with hm | hm
-        · exact absurd hm.symm (hnd n' o' j' v' x')
-        · exact hb2 n' o' j' v' x' hm
+        · exact absurd hm.symm (hnd n' o' j' v' x' t')
+        · exact hb2 n' o' j' v' x' t' hm
 
 theorem setup_false_clear (cfg : Cfg) (S : Name → Prop) (hmd : cfg.maxDepth = none) (hcl : Closed cfg.db S)
     (hnj : NoJust cfg.db S) : ∀ fuel, UnClear cfg S (setup cfg fuel) := by
@@ -144,17 +144,17 @@ theorem setup_false_clear (cfg : Cfg) (S : Name → Prop) (hmd : cfg.maxDepth = 
       have hs0 : Sub ({ s.env with dirs := aunset s.env.dirs d.name, recs := aunset s.env.recs d.name } : Env) s.env :=
         ⟨fun _ _ h => h, fun _ _ h => h, fun n x h => (aget_aunset_some _ _ _ _ h).1,
          fun n v h => (aget_aunset_some _ _ _ _ h).1⟩
-      have hl : ∀ n' o j v x, Act.dep n' o j v x ∈ d.actions cfg.exact → S n' ∧ j = false := by
-        intro n' o j v x hm
+      have hl : ∀ n' o j v x t, Act.dep n' o j v x t ∈ d.actions cfg.exact → S n' ∧ j = false := by
+        intro n' o j v x t hm
         obtain ⟨g, hg⟩ := mem_actions d cfg.exact _ hm
-        exact ⟨hcl d hdmem hSd g n' o j v x hg, hnj d hdmem hSd g n' o j v x hg⟩
+        exact ⟨hcl d hdmem hSd g n' o j v x t hg, hnj d hdmem hSd g n' o j v x t hg⟩
       obtain ⟨hc2, hb2⟩ := acts_false_clear cfg S hmd (setup cfg k) (setup_false_spec cfg k)
         (fun depth noRec vro n ver vexpr s s' => setup_unfail cfg k depth noRec vro n ver vexpr s s')
         (fun depth noRec vro n ver vexpr s s' hw h => setup_false_unsets cfg k depth noRec vro n ver vexpr s s' hw h)
         ih depth vro d (d.actions cfg.exact) hl
         ⟨{ s.env with dirs := aunset s.env.dirs d.name, recs := aunset s.env.recs d.name }, s.aliases, s.unaliased, s.already⟩
         s' (hw.of_sub hs0) (hd.of_sub hs0) h
-      intro p v hp hr hn m o j x y hline
+      intro p v hp hr hn m o j x y t hline
       by_cases hpd : p = d.name
       · subst hpd
         rw [hname] at hr
@@ -163,8 +163,8 @@ theorem setup_false_clear (cfg : Cfg) (S : Name → Prop) (hmd : cfg.maxDepth = 
         subst hv
         have : tableOf cfg (d.name, d.ver) = d.actions cfg.exact := tableOf_canon cfg d hc
         rw [this] at hline
-        exact hb2 m o j x y hline
-      · refine hc2 p v hp ?_ hn m o j x y hline
+        exact hb2 m o j x y t hline
+      · refine hc2 p v hp ?_ hn m o j x y t hline
         show aget (aunset s.env.recs d.name) p = some v
         rw [aget_aunset_other _ _ _ hpd]; exact hr
 
@@ -177,13 +177,13 @@ namespace EupsModel.Setup
 /-- every set-up product of `S` other than `top` is named by a line of the table of a set-up product of `S` -/
 def Supp (cfg : Cfg) (S : Name → Prop) (top : Name) (e : Env) : Prop :=
   ∀ m v, S m → e.rec? m = some v →
-    m = top ∨ ∃ p w, S p ∧ e.rec? p = some w ∧ ∃ o j x y, Act.dep m o j x y ∈ tableOf cfg (p, w)
+    m = top ∨ ∃ p w, S p ∧ e.rec? p = some w ∧ ∃ o j x y t, Act.dep m o j x y t ∈ tableOf cfg (p, w)
 
 def Grow (e e' : Env) : Prop := ∀ m v, e.rec? m = some v → e'.rec? m = some v
 
 /-- who asked for `n`: it is the requested product, or a line of the table of a set-up product of `S` names it -/
 def Asked (cfg : Cfg) (S : Name → Prop) (top : Name) (e : Env) (n : Name) : Prop :=
-  n = top ∨ ∃ p w, S p ∧ e.rec? p = some w ∧ ∃ o j x y, Act.dep n o j x y ∈ tableOf cfg (p, w)
+  n = top ∨ ∃ p w, S p ∧ e.rec? p = some w ∧ ∃ o j x y t, Act.dep n o j x y t ∈ tableOf cfg (p, w)
 
 def SuppSpec (cfg : Cfg) (S : Name → Prop) (top : Name) (rec : Rec) : Prop :=
   ∀ depth noRec vro n ver vexpr s s', S n → Asked cfg S top s.env n →
@@ -210,19 +210,19 @@ theorem acts_true_supp (cfg : Cfg) (S : Name → Prop) (top : Name) (hcl : Close
   | cons a rest ih =>
     have hl' : ∀ a ∈ rest, a ∈ d.actions cfg.exact := fun a hm => hl a (List.mem_cons_of_mem _ hm)
     intro s s' ha hd hs hr h
-    by_cases hdep : ∃ n o j v x, a = .dep n o j v x
-    · obtain ⟨n, o, j, v, x, rfl⟩ := hdep
-      have hline : Act.dep n o j v x ∈ tableOf cfg (d.name, d.ver) := by
+    by_cases hdep : ∃ n o j v x t, a = .dep n o j v x t
+    · obtain ⟨n, o, j, v, x, t, rfl⟩ := hdep
+      have hline : Act.dep n o j v x t ∈ tableOf cfg (d.name, d.ver) := by
         have : tableOf cfg (d.name, d.ver) = d.actions cfg.exact := tableOf_canon cfg d hc
         rw [this]; exact hl _ (List.mem_cons_self)
       obtain ⟨g, hg⟩ := mem_actions d cfg.exact _ (hl _ (List.mem_cons_self))
-      have hSn : S n := hcl d (lookup_some cfg.db d.prod d hc).1 hSd g n o j v x hg
+      have hSn : S n := hcl d (lookup_some cfg.db d.prod d hc).1 hSd g n o j v x t hg
       simp only [acts] at h
       split at h
       · exact ih hl' s s' ha hd hs hr h
       · split at h
         · rename_i s1 hr1
-          obtain ⟨hs1, hg1, hd1⟩ := hrec _ _ _ _ _ _ _ _ hSn (Or.inr ⟨d.name, d.ver, hSd, hr, o, j, v, x, hline⟩)
+          obtain ⟨hs1, hg1, hd1⟩ := hrec _ _ _ _ _ _ _ _ hSn (Or.inr ⟨d.name, d.ver, hSd, hr, o, j, v, x, t, hline⟩)
             (Or.inl (Nat.succ_pos _)) ha hd hs hr1
           obtain ⟨hs2, hg2, hd2⟩ := ih hl' s1 s' (hal _ _ _ _ _ _ _ _ _ ha (by rw [hr1]; rfl)) hd1 hs1 (hg1 _ _ hr) h
           exact ⟨hs2, fun m w hm => hg2 m w (hg1 m w hm), hd2⟩
@@ -237,7 +237,7 @@ theorem acts_true_supp (cfg : Cfg) (S : Name → Prop) (top : Name) (hcl : Close
           split at h
           · cases h
           · exact ih hl' ⟨s.env, s.aliases, s.unaliased, s1.already⟩ s' h1 hd hs hr h
-    · have hnd : ∀ n o j v x, a ≠ .dep n o j v x := fun n o j v x e => hdep ⟨n, o, j, v, x, e⟩
+    · have hnd : ∀ n o j v x t, a ≠ .dep n o j v x t := fun n o j v x t e => hdep ⟨n, o, j, v, x, t, e⟩
       rw [acts_cons_nondep rec cfg true depth noRec vro d a rest s hnd] at h
       have hrecs : ∀ n, (a.apply true d.prod s).env.rec? n = s.env.rec? n := fun n => apply_rec? true d.prod a s n
       obtain ⟨hs2, hg2, hd2⟩ := ih hl' _ s' (by simpa using ha)
@@ -327,16 +327,16 @@ namespace EupsModel.Setup
 def noJustB (db : Db) : Bool :=
   db.decls.all fun d => d.table.all fun ga =>
     match ga.2 with
-    | .dep _ _ j _ _ => !j
+    | .dep _ _ j _ _ _ => !j
     | _ => true
 
 theorem noJust_of_check (db : Db) (S : Name → Prop) (h : noJustB db = true) : NoJust db S := by
-  intro d hd _ g n o j v x hg
+  intro d hd _ g n o j v x t hg
   unfold noJustB at h
   rw [List.all_eq_true] at h
   have h1 := h d hd
   rw [List.all_eq_true] at h1
-  have h2 := h1 (g, Act.dep n o j v x) hg
+  have h2 := h1 (g, Act.dep n o j v x t) hg
   simpa using h2
 
 def oneVersionB (db : Db) : Bool :=
